@@ -1461,6 +1461,15 @@ def _perturb(sub, level):
     """A model subtree that differs from `sub` in content (None = could not)."""
     if level == 3:
         vals = list(sub["values"])
+        if len(vals) % 2 == 0:
+            # the same data with another mask state for the first row (a column differs by its masks, too)
+            if sub["mask"] is None:
+                if not any(v in (".", "?") for v in vals):
+                    return {"values": vals, "mask": [MISSING] + [PRESENT] * (len(vals) - 1)}
+            else:
+                mk = list(sub["mask"])
+                mk[0] = MISSING if mk[0] == PRESENT else PRESENT
+                return {"values": vals, "mask": mk}
         vals[0] = vals[0] + "~"
         return {"values": vals, "mask": sub["mask"]}
     if not sub:
